@@ -133,6 +133,10 @@ def main():
             ids = list(meta["results"].keys())
             res = run_checks(tmp, ids, tier, seed)
             print(json.dumps({i: r["exit"] for i, r in res.items()}))
+            if "--update" in a:
+                meta["results"] = res
+                meta["detected_by"] = [i for i, r in res.items() if r["exit"] == 1]
+                json.dump(meta, open(os.path.join(d, "meta.json"), "w"), indent=1)
         finally:
             shutil.rmtree(tmp, ignore_errors=True)
 
